@@ -136,8 +136,11 @@ def update_normal_form(prog: Program, flags: dict[str, bool]):
             if recv == "grid" and node.func.attr == "metric":
                 return Tup([NF.atom("dx"), NF.atom("dy")])
             if recv == "grid" and node.func.attr in ("ingrid", "atsea", "onland"):
-                args = [vtext(it.eval(a, fr)) for a in node.args]
-                return NF.atom(f"{node.func.attr}({';'.join(args)})")
+                vals = [it.eval(a, fr) for a in node.args]
+                args = [vtext(v) for v in vals]
+                name = f"{node.func.attr}({';'.join(args)})"
+                dom.bool_info[name] = ("pred", node.func.attr, vals, node)
+                return NF.atom(name)
             if recv == "grid" and node.func.attr == "depth":
                 return NF.atom("h")
             if node.func.attr == "normal" and "rng" in unparse(node.func.value):
@@ -170,6 +173,7 @@ def update_normal_form(prog: Program, flags: dict[str, bool]):
     it.objenv["tracker.Dz"] = NF.atom("Dz")
     it.objenv["forcing.variables['w']"] = NF.atom("W")
     _, fr = it.run(fi, {}, "tracker")
+    it.dom_ref = dom
     return it, fr, draws
 
 
